@@ -114,9 +114,13 @@ package modules
 //@   at call (*Module).stop assert ready == statusReady
 //@   at recv assert chan == reports
 //@   at return assert reportCnt >= execCnt
+// C06: an error reported by any stopped module (e.g. its stop routine panicked) is not lost: the pass returns an error
+//@   ghost var anyErr bool = false
+//@   at recv ghost anyErr = (anyErr || (value != nil && value.err != nil))
+//@   ensures anyErr ==> r0 != nil
 //@   loop 0 invariant true
-//@   loop 1 invariant true
-//@   loop 2 invariant true
+//@   loop 1 invariant anyErr ==> lastErr != nil
+//@   loop 2 invariant anyErr ==> lastErr != nil
 
 // hooks only run for hooking modules that are online soon
 //@ func (*Module).processEventTrigger
